@@ -1322,7 +1322,7 @@ class TupleParser:
         array_size = attrl.get('ARRAYSIZE', None)
         if array_size is not None:
             # Issue #1044: Clarify if hex support is needed.
-            array_size = int(array_size)
+            array_size = self.unpack_array_size(tup_tree, array_size)
 
         scopes = None
         value = None
@@ -1516,7 +1516,7 @@ class TupleParser:
         array_size = attrl.get('ARRAYSIZE', None)
         if array_size is not None:
             # Issue #1044: Clarify if hex support is needed.
-            array_size = int(array_size)
+            array_size = self.unpack_array_size(tup_tree, array_size)
 
         embedded_object = False
         if 'EmbeddedObject' in attrl or 'EMBEDDEDOBJECT' in attrl:
@@ -1723,7 +1723,7 @@ class TupleParser:
         array_size = attrl.get('ARRAYSIZE', None)
         if array_size is not None:
             # Issue #1044: Clarify if hex support is needed
-            array_size = int(array_size)
+            array_size = self.unpack_array_size(tup_tree, array_size)
 
         qualifiers = self.list_of_matching(tup_tree, ('QUALIFIER',))
 
@@ -1762,7 +1762,7 @@ class TupleParser:
         array_size = attrl.get('ARRAYSIZE', None)
         if array_size is not None:
             # Issue #1044: Clarify if hex support is needed
-            array_size = int(array_size)
+            array_size = self.unpack_array_size(tup_tree, array_size)
 
         qualifiers = self.list_of_matching(tup_tree, ('QUALIFIER',))
 
@@ -2426,6 +2426,29 @@ class TupleParser:
         raise CIMXMLParseError(
             _format("Invalid CIM type found: {0!A}", cimtype),
             conn_id=self.conn_id)
+
+    def unpack_array_size(self, tup_tree, array_size):
+        """
+        Unpack the string value of an ARRAYSIZE attribute and return it as an
+        integer.
+
+        Parameters:
+
+          tup_tree (tuple): The tuple tree node with the attribute (for
+            messages).
+
+          array_size (str): ARRAYSIZE attribute value. Must not be None.
+        """
+        try:
+            return int(array_size)
+        except ValueError:
+            new_exc = CIMXMLParseError(
+                _format("Element {0!A} has an invalid value for its "
+                        "ARRAYSIZE attribute: {1!A}",
+                        name(tup_tree), array_size),
+                conn_id=self.conn_id)
+            new_exc.__cause__ = None
+            raise new_exc
 
     def unpack_boolean(self, data):
         """
